@@ -114,7 +114,14 @@ func (g *c19Gen) Next(w *World, n int) *Step {
 	pw := g.password(c)
 	f := map[string]string{w.pidField(): pid, "password": pw, "confirm_password": pw}
 	if c.UseUsername {
-		f["email"] = email
+		// the e-mail address is an optional extra field in username mode
+		switch r.Intn(4) {
+		case 0:
+		case 1:
+			f["email"] = ""
+		default:
+			f["email"] = email
+		}
 	}
 	switch r.Intn(8) {
 	case 0:
